@@ -908,7 +908,7 @@ func (s *SSEServer) processRequestAsync(ctx context.Context, request *JSONRPCReq
 		// Send error response directly through SSE.
 		fullResponseData, err := json.Marshal(errorResp)
 		if err != nil {
-			s.logger.Errorf("Error encoding error response: %v", err)
+			s.handleRequestError(fmt.Errorf("failed to encode error response: %w", err), request.ID, session)
 			return
 		}
 		event := formatSSEEvent("message", fullResponseData)
